@@ -179,9 +179,10 @@ PROPERTIES = {
             "explanation": "deductive: for variable/AtLeast(explicit signs)/AtMost/All/Any/Xor/XNor/Imply the real to_json followed by the "
                            "real from_json gives a node with the same truth function under every in-bounds interpretation, keeps "
                            "an explicit id and emits none for a generated one, for every child count (compound children by the "
-                           "to_json/from_json contracts = induction hypothesis). bounded stand-ins: end-to-end through "
-                           "json.dumps/loads, Not, nested random models, and the configurator classes (cc.Any/cc.Xor/"
-                           "StingyConfigurator: defaults, default priorities, polyhedron)."},
+                           "to_json/from_json contracts = induction hypothesis); likewise cc.Any / cc.Xor (with and without default: "
+                           "truth function, id, default and the -2 tagged branch kept) and StingyConfigurator (truth function, id, "
+                           "class). bounded stand-ins: end-to-end through json.dumps/loads, Not, nested random models, "
+                           "configurators (default priorities and polyhedron equality)."},
     "C17": {"harness_modules": ["contracts.c17"], "rt": ["rt.config:c17_b64"], "level": "other",
             "assumptions": S_ALL + ["A-pickle: pickle.loads(pickle.dumps(x)) reproduces plain-__dict__ objects and ndarrays; gzip and base64 "
                                     "are inverse pairs (standard library, not under contract)"],
